@@ -1,18 +1,24 @@
 import Arimaa.Props.C04
 import Arimaa.Lemmas.RsAgreeResult
+import Arimaa.Gen.Bridge.GameState_has_move
+import Arimaa.Gen.Bridge.GameState_is_terminal
+import Arimaa.Gen.Bridge.GameState_lost_all_rabbits
+import Arimaa.Gen.Bridge.GameState_rabbit_at_goal
 
 /-!
 # C04 — the property at the level of the REGENERATED code
 
 `Gen/Rs.lean` is written by `tools/rs2lean2.py` from the current text of engine.rs / zobrist.rs on every
-run; `Lemmas/RsAgree*.lean` prove that each regenerated function equals
-`Res.guard (hand panic guard) (hand total function)`.  This file puts the agreement theorems of the
-functions C04 rests on into the property's proof closure and restates them as one named obligation
-(`C04_code_agrees`), plus corollaries that speak about the regenerated functions directly.  A change of
-the Rust text of one of these functions breaks an obligation here without any test having to find the input.
+run.  `Gen/Bridge/<fn>.lean` (generated) proves `@Rs.fn = @RsBase.fn` — the current text against the
+baseline text — and `Lemmas/RsAgree*.lean` prove that each baseline function equals
+`Res.guard (hand panic guard) (hand total function)`.  This file puts both, for the functions C04 rests
+on, into the property's proof closure and restates them as one named obligation (`C04_code_agrees`) about
+the CURRENT functions, plus corollaries that speak about them directly.  A change of the Rust text of one
+of these functions that alters behaviour breaks an obligation here without any test having to find the input.
+(written by tools/mkrprops.py)
 -/
 namespace Arimaa
-open Gen GameState Arimaa.Gen.Rs Arimaa.Rt
+open Gen GameState Arimaa.Gen.Rs Arimaa.Rt Arimaa.Gen.Bridge
 
 theorem C04_value_of_ok {α : Type} {x : Res α} {p : Bool} {v w : α} (h : x = Res.guard p v) (hx : x = .ok w) :
     p = false ∧ w = v := by
@@ -20,15 +26,20 @@ theorem C04_value_of_ok {α : Type} {x : Res α} {p : Bool} {v w : α} (h : x = 
   obtain ⟨hp, hv⟩ := Res.guard_eq_ok.mp hx
   exact ⟨hp, hv.symm⟩
 
-/-- the agreement theorems C04 rests on, as one obligation -/
+/-- the agreement theorems C04 rests on, about the CURRENT functions, as one obligation -/
 theorem C04_code_agrees :
     (∀ s : GameState, GameState_is_terminal s = Res.guard s.isTerminalPanics s.isTerminal) ∧
     (∀ (s : GameState) (b : Board), GameState_has_move s b = Res.guard (s.hasMovePanics b) (s.hasMove b)) ∧
     (∀ (s : GameState) (b : Board), GameState_rabbit_at_goal s b = s.rabbitAtGoal b) ∧
     (∀ (s : GameState) (b : Board), GameState_lost_all_rabbits s b = s.lostAllRabbits b) :=
-  ⟨RsAgree.is_terminal_eq, RsAgree.has_move_eq, RsAgree.rabbit_at_goal, RsAgree.lost_all_rabbits⟩
+  ⟨(by simp only [bridge_GameState_is_terminal]; exact RsAgree.is_terminal_eq),
+   (by simp only [bridge_GameState_has_move]; exact RsAgree.has_move_eq),
+   (by simp only [bridge_GameState_rabbit_at_goal]; exact RsAgree.rabbit_at_goal),
+   (by simp only [bridge_GameState_lost_all_rabbits]; exact RsAgree.lost_all_rabbits)⟩
 
-theorem C04_code_result (s : GameState) (r : Option Terminal) (h : GameState_is_terminal s = .ok r) :
-    r = s.isTerminal := (C04_value_of_ok (RsAgree.is_terminal_eq s) h).2
+theorem C04_code_result (s : GameState) (r : Option Terminal)
+    (h : GameState_is_terminal s = .ok r) : r = s.isTerminal := by
+  simp only [bridge_GameState_is_terminal] at h
+  exact (C04_value_of_ok (RsAgree.is_terminal_eq s) h).2
 
 end Arimaa
